@@ -445,6 +445,44 @@ impl Node {
         out
     }
 
+    /// One round of the production sync client (`parallel_sync`) towards `members` over the
+    /// nodes' real QUIC endpoints. Whatever it hands to the ingest queue (which the simulator
+    /// owns) is collected while it runs, so a small queue never stalls the session.
+    pub async fn wire_sync(
+        &mut self,
+        members: Vec<(ActorId, std::net::SocketAddr)>,
+        ours: SyncStateV1,
+    ) -> R<(Result<usize, String>, Vec<ChangeV1>)> {
+        let agent = self.agent.clone();
+        let transport = self.transport.clone();
+        let mut h = tokio::spawn(async move {
+            klukai_agent::api::peer::parallel_sync(&agent, &transport, members, ours)
+                .await
+                .map_err(|e| e.to_string())
+        });
+        let mut got = vec![];
+        let t0 = Instant::now();
+        let res = loop {
+            for (cv, _) in self.drain_changes() {
+                got.push(cv);
+            }
+            if h.is_finished() {
+                break (&mut h)
+                    .await
+                    .map_err(|e| SimError::Harness(format!("parallel_sync panicked: {e}")))?;
+            }
+            if t0.elapsed() > Duration::from_secs(90) {
+                h.abort();
+                return Err(SimError::Harness("wire sync session did not finish".into()));
+            }
+            tokio::time::sleep(Duration::from_micros(200)).await;
+        };
+        for (cv, _) in self.drain_changes() {
+            got.push(cv);
+        }
+        Ok((res, got))
+    }
+
     pub fn offer_sender(&self) -> CorroSender<(ChangeV1, ChangeSource)> {
         self.agent.tx_changes().clone()
     }
